@@ -6,6 +6,8 @@
 //                     R <fmt> <nbytes>\n<bytes>     same, but through ONE GM2_slha_io object that lives as long as the
 //                                                   process and is re-used for every R case via read_from_file()
 //                                                   (the API's way to re-use an object: it clears the old content)
+//                     D <fmt> 0                      no file at all: dump of the default-constructed objects (what a parameter is
+//                                                   when no key sets it), same names as for F
 // Any number of cases per process: every F case uses a fresh GM2_slha_io, every case fresh model objects, so the
 // dump of a file must not depend on what the process read before (the driver compares with one-file processes).
 // Output per case:    BEGIN <fmt>
@@ -195,6 +197,31 @@ static void do_case(const std::string& fmt, const std::string& content, bool reu
    std::printf("END\n");
 }
 
+static void dump_bases(const thdm::Mass_basis& b, const thdm::Gauge_basis& g)
+{
+   P("mb.mh", b.mh); P("mb.mH", b.mH); P("mb.mA", b.mA); P("mb.mHp", b.mHp);
+   P("mb.sin_beta_minus_alpha", b.sin_beta_minus_alpha);
+   P("mb.lambda_6", b.lambda_6); P("mb.lambda_7", b.lambda_7);
+   dump_basis_common("mb.", b);
+   PM("gb.lambda", g.lambda);
+   dump_basis_common("gb.", g);
+}
+
+static void do_default(const std::string& fmt)
+{
+   std::printf("BEGIN %s\n", fmt.c_str());
+   Config_options c;
+   c.output_format = fmt == "gm2calc" ? Config_options::Detailed : Config_options::GM2Calc;
+   dump_config(c);
+   if (fmt == "thdm") {
+      SM sm; dump_sm(sm);
+      thdm::Mass_basis b; thdm::Gauge_basis g; dump_bases(b, g);
+   } else {
+      MSSMNoFV_onshell m; dump_mssm(m);
+   }
+   std::printf("END\n");
+}
+
 int main()
 {
    std::string line;
@@ -205,6 +232,7 @@ int main()
       std::string cmd, fmt;
       size_t n = 0;
       ls >> cmd >> fmt >> n;
+      if (cmd == "D") { do_default(fmt); ++ncases; continue; }
       if (cmd != "F" && cmd != "R") { std::printf("PROTO-ERROR %s\n", line.c_str()); return 3; }
       std::string content(n, '\0');
       std::cin.read(&content[0], static_cast<std::streamsize>(n));
